@@ -19,14 +19,23 @@ def run(prop, tier, seed, ctx):
     res = tlc.run("MC_TifaRobust", cfg, workers=8, timeout=1500)
     tlc.require_ok(res, cfg)
     ctx.add_tlc(res, "cache protocol x construct matrix " + cfg)
+    res2 = tlc.run("MC_TifaRobust", "MC_TifaRobust_ctor_q.cfg", workers=4, timeout=600)
+    tlc.require_ok(res2, "MC_TifaRobust_ctor_q.cfg")
+    ctx.add_tlc(res2, "constructor cells x histories with a program that subscripts the builtin constructors")
     uniq = {json.dumps([r["cell"], [(h["op"], h["p"]) for h in r["hist"]]], sort_keys=True): r for r in res.records}
+    # the constructor histories look for PROCESS-wide residue: each one is replayed in a process of its own
+    uniq2 = {json.dumps([r["cell"], [(h["op"], h["p"]) for h in r["hist"]]], sort_keys=True): r for r in res2.records}
     cases = list(enumerate(uniq.values()))
     # fresh-interpreter baselines for the cells whose analysis could depend on what the process analysed before
-    special = {json.dumps(r["cell"], sort_keys=True): r["cell"] for r in uniq.values()
+    special = {json.dumps(r["cell"], sort_keys=True): r["cell"] for r in list(uniq.values()) + list(uniq2.values())
                if r["cell"]["k"] == "exotic" or (r["cell"]["k"] == "builtin" and r["cell"]["s"] in ("list", "dict", "set", "tuple", "str", "int", "float", "bool"))}
     baselines = dict(shard_map("bind.tifarobust", "baseline_chunk", list(special.values()), procs=12, chunk=1))
     ctx.notes.append("%d fresh-interpreter baselines" % len(baselines))
     mism = shard_map("bind.tifarobust", "replay_chunk", cases, extra={"baselines": baselines})
+    cases2 = list(enumerate(uniq2.values()))
+    mism += shard_map("bind.tifarobust", "replay_chunk", cases2, extra={"baselines": baselines}, chunk=1, fresh=True)
+    cases = cases + cases2
+    uniq.update(uniq2)
     ctx.cov["replayed_cases"] += len(cases)
     ctx.cov["traces_validated_against_impl"] += len(cases)
     ctx.count(len(cases), (k for k, r in uniq.items() if any(h["hit"] or h["op"] == "clear" for h in r["hist"])))
